@@ -186,6 +186,30 @@ Example C18_fir_plan_runs :
   fir_plan 2 0 None 8 44 = Plan 9 [] /\ fir_plan 2 0 (Some (1 # 5)) 40 12 = PlanErr /\
   fir_plan 2 0 (Some (6 # 5)) 8 44 = PlanErr.
 Proof. exact fir_plan_example. Qed.
+(* iir: the (wp, ws) handed to scipy.signal.iirdesign.  The stop-band edge lies strictly outside the
+   pass band exactly when lb > 0.1 Nyquist (high-pass), ub < 0.9 Nyquist (low-pass),
+   0.001 < lb < ub < 0.999 Nyquist (band-pass) ... *)
+Theorem C18_iir_highpass_spec : forall lbf, 1 # 10 < lbf -> lbf < 1 ->
+  exists ws, iir_of_fracs lbf 1 = IirHigh lbf ws /\ 0 < ws /\ ws < lbf.
+Proof. exact iir_high_ok. Qed.
+Theorem C18_iir_lowpass_spec : forall ubf, 0 < ubf -> ubf < 9 # 10 ->
+  exists ws, iir_of_fracs 0 ubf = IirLow ubf ws /\ ubf < ws /\ ws < 1.
+Proof. exact iir_low_ok. Qed.
+Theorem C18_iir_bandpass_spec : forall lbf ubf, 1 # 1000 < lbf -> lbf < ubf -> ubf < 999 # 1000 ->
+  exists ws1 ws2, iir_of_fracs lbf ubf = IirBand lbf ubf ws1 ws2 /\
+    0 < ws1 /\ ws1 < lbf /\ ubf < ws2 /\ ws2 < 1.
+Proof. exact iir_band_ok. Qed.
+Print Assumptions C18_iir_bandpass_spec.
+(* ... and REFUTED outside: a high-pass at lb = 0.08 Nyquist gets ws = 0.1 > wp (scipy designs a
+   LOW-pass), a low-pass at ub = 0.95 Nyquist gets ws = 0.9 < wp (scipy designs a HIGH-pass) *)
+Theorem C18_iir_highpass_spec_refuted : exists lbf, 0 < lbf /\ lbf < 1 /\
+  exists ws, iir_of_fracs lbf 1 = IirHigh lbf ws /\ lbf < ws.
+Proof. exact iir_high_refuted. Qed.
+Theorem C18_iir_lowpass_spec_refuted : exists ubf, 0 < ubf /\ ubf < 1 /\
+  exists ws, iir_of_fracs 0 ubf = IirLow ubf ws /\ ws < ubf.
+Proof. exact iir_low_refuted. Qed.
+Print Assumptions C18_iir_highpass_spec_refuted.
+
 Example C18_dc_restore_nonvacuous :
   all2 Qeq_bool (map (dc_restore 3 (lq [1; 2; 6]) (lq [0; 1; 1])) [0; 1; 2]%nat) [7 # 3; 10 # 3; 10 # 3] = true
   /\ mean (lq [1; 2; 6]) 3 == 3.
